@@ -158,9 +158,48 @@ fn make_long_wal_script(seed: u64) -> Script {
     Script { cfg, pool, ops, arm_at: Some(arm_at) }
 }
 
+/// A compaction over cold tables: four sessions without log reuse each leave one level-0 table
+/// (the write-ahead log is converted at the next open), then the database is reopened once more -
+/// nothing is in the table cache - and the whole range is compacted with the fault armed for
+/// exactly that call; every key is read afterwards, and again after a fault-free reopen.
+fn make_cold_compaction_script(seed: u64) -> Script {
+    let mut rng = Rng::new(mix(&[seed], "c08-cold-compaction"));
+    let cfg = Config { memtable: 64 * 1024, file: *rng.pick(&[1024u64, 4096]), block: 256, reuse: false };
+    let pool = gen::key_pool(&mut rng, KeyFamily::Ascii, 30);
+    let mut ops = vec![];
+    let mut counter = 0u64;
+    for _ in 0..4 {
+        for _ in 0..rng.range(8, 20) {
+            let k = rng.pick(&pool).clone();
+            if rng.chance(0.2) {
+                ops.push(ScriptOp::Write(vec![(k, None)]));
+            } else {
+                counter += 1;
+                ops.push(ScriptOp::Write(vec![(k, Some(gen::tagged_value(&mut rng, &format!("v{counter}:"), 60)))]));
+            }
+        }
+        ops.push(ScriptOp::Reopen(cfg));
+    }
+    let arm_at = ops.len();
+    ops.push(ScriptOp::Compact);
+    for k in &pool {
+        ops.push(ScriptOp::Get(k.clone()));
+    }
+    counter += 1;
+    ops.push(ScriptOp::Write(vec![(pool[0].clone(), Some(gen::tagged_value(&mut rng, &format!("v{counter}:"), 60)))]));
+    ops.push(ScriptOp::Compact);
+    for k in &pool {
+        ops.push(ScriptOp::Get(k.clone()));
+    }
+    Script { cfg, pool, ops, arm_at: Some(arm_at) }
+}
+
 fn make_script(history: u64, seed: u64, n_ops: usize) -> Script {
     if history == 4 {
         return make_long_wal_script(seed);
+    }
+    if history == 5 {
+        return make_cold_compaction_script(seed);
     }
     let mut rng = Rng::new(mix(&[seed, history], "c08-script"));
     let cfg = Config {
@@ -514,7 +553,7 @@ pub fn run_case(tier: &str, seed: u64, idx: u64) -> CaseOut {
     }
     let idx = idx - idx / GROUP_EVERY;
     // every 16th case runs the long-WAL script (history 4), the others rotate over scripts 0-3
-    let (history, j) = if idx % 16 == 15 { (4, idx / 16) } else { (idx % HISTORIES, idx / HISTORIES) };
+    let (history, j) = if idx % 16 == 15 { (4, idx / 16) } else if idx % 16 == 7 { (5, idx / 16) } else { (idx % HISTORIES, idx / HISTORIES) };
     let script = make_script(history, seed, if tier == "quick" { 150 } else { 220 });
     // pilot: no fault, classify the call stream
     let mut pilot_out = CaseOut::new();
@@ -528,7 +567,19 @@ pub fn run_case(tier: &str, seed: u64, idx: u64) -> CaseOut {
         return out;
     }
     let pilot = pilot.unwrap();
-    let pos = if history == 4 {
+    let pos = if history == 5 {
+        // every call made during the armed compaction
+        let mut v = vec![];
+        for ((kind, class), n) in &pilot.counts {
+            if matches!(kind, OpKind::IsDir | OpKind::Lock | OpKind::Mkdir | OpKind::RemoveDir) {
+                continue;
+            }
+            for o in 0..(*n).min(12) {
+                v.push((*kind, *class, o));
+            }
+        }
+        v
+    } else if history == 4 {
         // the fault is armed for the reopen in the middle of the script: the first and the last
         // three occurrences of every kind of call made during that reopen
         let mut v = vec![];
@@ -554,7 +605,7 @@ pub fn run_case(tier: &str, seed: u64, idx: u64) -> CaseOut {
     // the long-WAL script tries every position with a transient fault first (a sticky fault during
     // a reopen mostly just makes the open fail), the other scripts interleave the modes
     let combo = j % (n_pos * 3);
-    let (pos_index, mode_index) = if history == 4 { (combo % n_pos, combo / n_pos) } else { (combo / 3, combo % 3) };
+    let (pos_index, mode_index) = if history >= 4 { (combo % n_pos, combo / n_pos) } else { (combo / 3, combo % 3) };
     let (kind, class, nth) = pos[pos_index as usize];
     let mode = modes[mode_index as usize];
     // (SimFs can also report an error *after* applying a mutating call. That model is not used: a
